@@ -69,8 +69,60 @@
     }                                                                                       \
     log[0] = won; log[1] = lost; log[2] = impossible; log[3] = wrong_owner;                 \
   }                                                                                         \
+  /* compare-exchange loop whose desired value comes from a call with many arguments (every caller-saved register is dead across it), weak and strong alternating */ \
+  long w_cascall_##S(AT *p, long n, unsigned long *log, long cap) {                         \
+    long k = 0;                                                                             \
+    long scratch = 1;                                                                       \
+    T old = atomic_load(&OBJ);                                                              \
+    for (long i = 0; i < n; i++) {                                                          \
+      for (;;) {                                                                            \
+        T expected = old;                                                                   \
+        T desired = expected + 1;                                                           \
+        _Bool ok = (k & 1) ? atomic_compare_exchange_weak(&OBJ, &old, (T)mix6(expected, 0, 0, 0, &scratch, i))   \
+                           : atomic_compare_exchange_strong(&OBJ, &old, (T)mix6(0, expected, 0, 0, &scratch, i)); \
+        if (scratch != 1) { log[0] = ~0ul; log[1] = scratch; log[2] = 0; return 1; }          \
+        if (k < cap) { log[3 * k] = expected; log[3 * k + 1] = ok ? desired : old; log[3 * k + 2] = ok; k++; } \
+        if (ok) { old = desired; break; }                                                   \
+      }                                                                                     \
+    }                                                                                       \
+    return k;                                                                               \
+  }                                                                                         \
+  /* the _explicit spellings with every memory order: the order may weaken ordering, never indivisibility */ \
+  void w_exchx_##S(AT *p, long n, unsigned long *log, unsigned long first) {                \
+    for (long i = 0; i < n; i++) {                                                          \
+      T v = (T)(first + i);                                                                 \
+      switch (i % 6) {                                                                      \
+      case 0: log[i] = atomic_exchange_explicit(&OBJ, v, memory_order_relaxed); break;      \
+      case 1: log[i] = atomic_exchange_explicit(&OBJ, v, memory_order_consume); break;      \
+      case 2: log[i] = atomic_exchange_explicit(&OBJ, v, memory_order_acquire); break;      \
+      case 3: log[i] = atomic_exchange_explicit(&OBJ, v, memory_order_release); break;      \
+      case 4: log[i] = atomic_exchange_explicit(&OBJ, v, memory_order_acq_rel); break;      \
+      default: log[i] = atomic_exchange_explicit(&OBJ, v, memory_order_seq_cst); break;     \
+      }                                                                                     \
+    }                                                                                       \
+  }                                                                                         \
+  void w_fetchx_##S(AT *p, long n, unsigned long *log) {                                    \
+    for (long i = 0; i < n; i++) {                                                          \
+      switch (i % 4) {                                                                      \
+      case 0: log[i] = atomic_fetch_add_explicit(&OBJ, 1, memory_order_relaxed); break;     \
+      case 1: log[i] = atomic_fetch_add_explicit(&OBJ, 1, memory_order_acquire); break;     \
+      case 2: log[i] = atomic_fetch_sub_explicit(&OBJ, -1, memory_order_release); break;    \
+      default: log[i] = atomic_fetch_add_explicit(&OBJ, 1, memory_order_seq_cst); break;    \
+      }                                                                                     \
+    }                                                                                       \
+  }                                                                                         \
   void w_shift_##S(AT *p, long n, unsigned long *log) {                              \
     for (long i = 0; i < n; i++) { log[2 * i] = (OBJ <<= 1); log[2 * i + 1] = (OBJ |= 1); }   \
+  }
+
+static long mix6(long a, long b, long c, long d, long *e, long f) { return a + b + c + d + *e + (f & 0); }
+
+// signed narrow objects whose sign other threads keep flipping: x %= 16 keeps 2 and -2 as they are, x *= -1 swaps them; any other value means an
+// update was computed from a value the object never held
+#define DEFINE_SIGNMOD(T, S, AT)                                                             \
+  void w_signmod_##S(AT *p, long n, unsigned long *log, unsigned long role) {                \
+    if (role & 1) for (long i = 0; i < n; i++) log[i] = (unsigned long)(long)(OBJ *= -1);    \
+    else for (long i = 0; i < n; i++) log[i] = (unsigned long)(long)(OBJ %= 16);             \
   }
 
 // every spelling of an atomic type is used for one width variant
@@ -81,6 +133,10 @@ DEFINE(unsigned int, u32, unsigned int _Atomic)
 DEFINE(unsigned long, u64, atomic_ulong)
 DEFINE(signed char, i8, _Atomic(signed char))
 DEFINE(long, i64, td_atomic_long)
+DEFINE(short, i16, _Atomic short)
+DEFINE_SIGNMOD(signed char, i8, _Atomic(signed char))
+DEFINE_SIGNMOD(short, i16, _Atomic short)
+DEFINE_SIGNMOD(int, i32, _Atomic int)
 
 // member variant: the atomic object is reached as a struct member (s.m op= v, q->m++)
 struct BoxM { char pad[3]; _Atomic unsigned m; long tail; };
@@ -110,6 +166,9 @@ void w_mulodd_p64(void *p, long n, unsigned long *log) { w_mulodd_u64(p, n, log)
 void w_xor_p64(void *p, long n, unsigned long *log, unsigned long mask) { w_xor_u64(p, n, log, mask); }
 void w_orand_p64(void *p, long n, unsigned long *log, unsigned long bit) { w_orand_u64(p, n, log, bit); }
 void w_exchange_p64(_Atomic(bytep) *p, long n, unsigned long *log, unsigned long first) { for (long i = 0; i < n; i++) log[i] = (unsigned long)atomic_exchange(p, (bytep)(first + i)); }
+void w_fetchx_p64(void *p, long n, unsigned long *log) { w_fetchx_u64(p, n, log); }
+void w_exchx_p64(void *p, long n, unsigned long *log, unsigned long first) { w_exchx_u64(p, n, log, first); }
+long w_cascall_p64(void *p, long n, unsigned long *log, long cap) { return w_cascall_u64(p, n, log, cap); }
 void w_claim_p64(_Atomic(bytep) *p, long n, unsigned long *log, unsigned long me) {
   unsigned long won = 0, lost = 0, impossible = 0, wrong_owner = 0;
   for (long i = 0; i < n; i++) {
@@ -141,6 +200,7 @@ _Atomic unsigned int s_u32;
 _Atomic unsigned long s_u64;
 _Atomic signed char s_i8;
 _Atomic long s_i64;
+static _Atomic short s_i16;
 static struct BoxM s_box;
 static _Atomic(bytep) s_p64;
 static _Atomic double s_d64;
@@ -156,6 +216,7 @@ void *static_object(int which) {
   case 7: return &s_p64;
   case 8: return &s_d64;
   case 9: return &s_f32;
+  case 10: return &s_i16;
   default: return &s_i64;
   }
 }
@@ -163,13 +224,14 @@ void *static_object(int which) {
 // automatic storage: the object lives in this frame while the harness callback runs the phase
 void with_automatic(int which, void (*run)(void *obj, void *ctx), void *ctx) {
   _Atomic unsigned char a8 = 0; _Atomic unsigned short a16 = 0; _Atomic unsigned int a32 = 0; _Atomic unsigned long a64 = 0;
-  _Atomic signed char b8 = 0; _Atomic long b64 = 0;
+  _Atomic signed char b8 = 0; _Atomic long b64 = 0; _Atomic short b16 = 0;
   struct BoxM abox = {}; _Atomic(bytep) ap64 = 0;
   switch (which) {
   case 6: run(&abox.m, ctx); break;
   case 7: run(&ap64, ctx); break;
   case 8: { _Atomic double ad64 = 0; run(&ad64, ctx); break; }
   case 9: { _Atomic float af32 = 0; run(&af32, ctx); break; }
+  case 10: run(&b16, ctx); break;
   case 0: run(&a8, ctx); break;
   case 1: run(&a16, ctx); break;
   case 2: run(&a32, ctx); break;
